@@ -38,24 +38,24 @@ type floorReq struct {
 
 // Ctx is the per-run context of one property.
 type Ctx struct {
-	P      *Prog
-	Prop   string
-	Tier   string
-	Obls   []*Obligation
-	floors []floorReq
-	Notes  []string
-	Stats  map[string]int
-	curRule string
-	seen   map[string]bool
-	reach  map[*ssa.Function]bool
-	reqReach map[*ssa.Function]bool
-	bce    []bceSite
-	bceDone bool
+	P             *Prog
+	Prop          string
+	Tier          string
+	Obls          []*Obligation
+	floors        []floorReq
+	Notes         []string
+	Stats         map[string]int
+	curRule       string
+	seen          map[string]bool
+	reach         map[*ssa.Function]bool
+	reqReach      map[*ssa.Function]bool
+	bce           []bceSite
+	bceDone       bool
 	skipGenerated bool
-	genFiles map[string]bool
-	exprAt   map[token.Pos]string
-	callerIdx map[*ssa.Function][]ssa.CallInstruction
-	addrTaken map[*ssa.Function]bool
+	genFiles      map[string]bool
+	exprAt        map[token.Pos]string
+	callerIdx     map[*ssa.Function][]ssa.CallInstruction
+	addrTaken     map[*ssa.Function]bool
 }
 
 type anchorMissing struct{ what string }
@@ -135,6 +135,7 @@ func (c *Ctx) Missing(format string, args ...any) {
 // undecided obligation (which fails the check).
 func (c *Ctx) RunRule(rule string, f func(c *Ctx)) {
 	c.curRule = rule
+	theCtx = c
 	defer func() {
 		if r := recover(); r != nil {
 			if am, ok := r.(anchorMissing); ok {
